@@ -78,6 +78,7 @@ static std::string program(const Tree &t, const int32_t v[3], const int k[3], in
     case 2: ldecl += "val d" + n + " = " + l + "; "; L[j] = "d" + n; break;
     case 3: ldecl += "var x" + n + "; "; init += "x" + n + " := " + l + "; "; L[j] = "x" + n; break;
     case 4: gdecl += "var g" + n + ";\n"; init += "g" + n + " := " + l + "; "; L[j] = "g" + n; break;
+    case 6: L[j] = "fx(" + l + ")"; break;   // a call with an observable effect (counts itself) that yields the value
     default: formals += std::string(formals.empty() ? "" : ", ") + "val f" + n; actuals += std::string(actuals.empty() ? "" : ", ") + l; L[j] = "f" + n; break;
     }
   }
@@ -95,9 +96,10 @@ static std::string program(const Tree &t, const int32_t v[3], const int k[3], in
   case 4: body = "0(pick(5, " + e + "))"; break;
   case 5: body = "if (" + e + ") = " + lit(expect) + " then 0(11) else 0(22)"; break;
   case 6: body = std::string(W8) + "r[0] := 0; 0(w[r[0] + (" + e + ")])"; break;
-  default: body = "0(pick(1, 2) + (" + e + "))"; break;
+  case 7: body = "0(pick(1, 2) + (" + e + "))"; break;
+  default: body = "r[1] := " + e + "; 0(r[1] + cnt)"; break;   // 8: the value plus 1000 for every effectful call that was made
   }
-  return gdecl + "array r[2]; array w[8];\nfunc pick(val a, val b) is return b - a\nproc t(" + formals + ") is " + ldecl + "\n{ " + init + body + " }\nproc main() is t(" + actuals + ")\n";
+  return gdecl + "array r[2]; array w[8]; var cnt;\nfunc pick(val a, val b) is return b - a\nfunc fx(val v) is { cnt := cnt + 1000; return v }\nproc t(" + formals + ") is " + ldecl + "\n{ cnt := 0; " + init + body + " }\nproc main() is t(" + actuals + ")\n";
 }
 
 int main(int argc, char **argv) {
@@ -172,6 +174,26 @@ int main(int argc, char **argv) {
         }
         st.outcome(mix(base, ti));
       }
+      // context 8: some leaves are calls with an observable effect; the other leaves are run-time variables (base) or compile-time constants (variants): the same calls must be made
+      if (t.nleaves >= 2 && !ctx.expired()) {
+        std::string opsig = std::string(OPS[t.outer]) + (t.shape >= 2 ? std::string("/") + OPS[t.inner] : "") + ":shape" + std::to_string(t.shape);
+        for (int cm = 1; cm < (1 << t.nleaves) - 1; cm++) {
+          if (!ctx.thorough() && t.nleaves == 3 && (i + cm) % 3) continue;
+          int kb[3] = {3, 3, 3}; for (int j = 0; j < t.nleaves; j++) if (cm & (1 << j)) kb[j] = 6;
+          std::string rsrc = program(t, v, kb, 8, exact); int32_t base = 0; std::string w;
+          int s0 = runOne(R, rsrc, base, w); st.add("programs");
+          if (s0) { st.violation("runtime-variant-failed:effects:" + opsig, i, Obj().kv("runtime_source", rsrc).kv("variant_source", rsrc).kv("what", w).str()); continue; }
+          int nfree = 0; for (int j = 0; j < t.nleaves; j++) if (!(cm & (1 << j))) nfree++;
+          for (int kv = 0; kv < (1 << nfree); kv++) {
+            int k[3] = {3, 3, 3}, q = 0; for (int j = 0; j < t.nleaves; j++) { if (cm & (1 << j)) k[j] = 6; else { k[j] = (kv >> q) & 1; q++; } }
+            std::string src = program(t, v, k, 8, exact); int32_t got = 0; std::string w2;
+            int s2 = runOne(R, src, got, w2); st.add("programs"); st.add("programs_with_compile_time_leaves"); st.add("programs_with_effectful_calls");
+            std::string place; for (int j = 0; j < t.nleaves; j++) place += k[j] == 6 ? 'F' : 'C';
+            if (s2) st.violation("variant-failed:effects:" + opsig + ":" + place, i, Obj().kv("runtime_source", rsrc).kv("variant_source", src).kv("what", w2).str());
+            else if (got != base) st.violation("fold-differs-from-runtime:effects:" + opsig + ":" + place, i, Obj().kv("runtime_source", rsrc).kv("variant_source", src).kv("what", "variant gives " + std::to_string(got) + ", run-time variant gives " + std::to_string(base) + " (value + 1000 per call made)").str());
+          }
+        }
+      }
       st.add("groups"); if (flags & 1) st.add("groups_relational_overflow"); if (flags & 2) st.add("groups_wrapping");
       if (i % 30011 == 0) { int kk[3] = {0, 3, 1}; std::string LL[3] = {"L0", "L1", "L2"}; st.sample(Obj().kv("tree", render(t, LL)).kv("source", program(t, v, kk, 0)).str(), 5); }
     }
@@ -187,7 +209,7 @@ int main(int argc, char **argv) {
   rep.evaluations = c["programs"]; rep.states = c["groups"]; rep.transitions = c["programs"]; rep.validated = c["programs"];
   rep.nontrivial = c["programs_with_compile_time_leaves"];
   rep.rule = "every expression tree with <=2 operators over X's 10 binary and 2 unary operators (boolean-typed operands under and/or/~) x every valuation of its leaves over the corner constants "
-             "x 8 contexts (exit argument, stored element, subscript of a read and of a write and next to a run-time index where the value is a valid index, actual of a call, operand of a comparison, operand next to a call) x every assignment of a kind to each leaf from {literal, global val, local val | local var, global var, val formal}; "
+             "x 8 contexts (exit argument, stored element, subscript of a read and of a write and next to a run-time index where the value is a valid index, actual of a call, operand of a comparison, operand next to a call; and a ninth in which any subset of the leaves are calls with a counted effect while the others are constants or variables) x every assignment of a kind to each leaf from {literal, global val, local val | local var, global var, val formal}; "
              "each variant must give the same exit value as the all-run-time variant, which itself must equal two's-complement evaluation (and RefX where defined); distinct by construction; "
              "non-trivial = programs with at least one compile-time leaf";
   rep.bounds.kv("values", (uint64_t)V.size()).kv("kinds", (uint64_t)KINDS.size()).kv("trees", (uint64_t)T.size()).kv("max_operators", 2);
